@@ -68,14 +68,14 @@ CLAIMED["C05"] = dict(
     text="Proof (Lean 4) about the handle state machine SfModel.Handle (the 16 read/write wrappers, guards in order, end-of-data clamp, zero fill, position "
          "bookkeeping) tied to the code two ways: (A) byte-exact transcript correspondence of seeded random histories on every RAW/AU/WAV encoding; (B) the "
          "count/bounds/position contract re-evaluated on the implementation's own transcripts for every writable (major, subtype, endian) incl. all block codecs, "
-         "against one sequential reference read, with exact-size ASan-guarded buffers. Partial: opaque codecs are covered by (B) only.",
+         "against one sequential reference read, with exact-size ASan-guarded buffers. GSM 06.10 read contract: gsm_read_call_contract / gsm_read_at_end (SfProps/C06Gsm.lean). Partial: the remaining opaque codecs are covered by (B) only.",
     technique="Lean 4 theorems over a hand-written handle model + differential correspondence + contract evaluation on implementation transcripts",
     design_ref="DESIGN.md §7 C05")
 CLAIMED["C06"] = dict(
     text="Proof (Lean 4) about sf_seek's whence arithmetic and the read path of SfModel.Handle (seek result is the requested frame or -1 with error; reads depend on "
          "position only); correspondence (A) byte-exact on RAW/AU/WAV histories, (B) on every writable format incl. IMA/MS ADPCM, GSM, PAF24, SDS, ALAC, DWVW: "
          "seeded seek/read histories must deliver slices of the one-pass reference stream and position probes must agree. Handles reporting SF_INFO.seekable = 0 "
-         "are required to refuse every seek. Partial: block-codec seek internals are opaque (checked by B).",
+         "are required to refuse every seek. GSM 06.10 is modelled bit-exactly (SfModel/Gsm.lean, GsmFile.lean; SfProps/C06Gsm.lean: decoder memory safety for every frame, reads of any partition / caller type deliver the sequential decode, sf_seek always refused; vlib/gsm.py compares every decoded sample with the model). Partial: the other block-codec seek internals are opaque (checked by B).",
     technique="Lean 4 theorems over a hand-written handle model + differential correspondence + contract evaluation on implementation transcripts",
     design_ref="DESIGN.md §7 C06")
 
@@ -107,7 +107,7 @@ CLAIMED["C04"] = dict(
 CLAIMED["C07"] = dict(
     text="Proof (Lean 4): kernel_append, write_partition_store (two calls = one call, every field and byte), file_bytes_fn / file_bytes_partition (closed bytes are a function of "
          "open parameters, concatenated samples and PEAK state only; header updates and call variants do not matter) for RAW/AU/WAV, and since the repairs of KF-C18-DOUBLE-NARROW / KF-C18-STAGING-MISALIGN also for "
-         "PEAK-carrying WAV float/double with finite samples (file_bytes_partition_finite); " + _WR + "The clock is pinned by the harness. Partial: block encoders are covered by (B).",
+         "PEAK-carrying WAV float/double with finite samples (file_bytes_partition_finite); " + _WR + "The clock is pinned by the harness. GSM 06.10: gsm_file_bytes_partition (SfProps/C07Gsm.lean) over the bit-exact encoder model SfModel/GsmEnc.lean, tied byte for byte by vlib/gsm.py. Partial: the other block encoders are covered by (B).",
     technique="Lean 4 theorems over a hand-written handle model + differential correspondence + byte comparison of partitions on the implementation",
     design_ref="DESIGN.md §7 C07")
 CLAIMED["C11"] = dict(
